@@ -258,6 +258,14 @@ example : canonB [84, 101, 115, 116, 48, 49] = false ∧ canonB [84, 101, 115, 1
 -- twenty digits are rejected (`ParseUint` may overflow: `natural.Less` falls back to the byte order)
 example : canonB (List.replicate 20 49) = false ∧ canonB (List.replicate 19 57) = true := by decide
 
+/-- **the 19-digit limit is sharp**: with a run of twenty digits `strconv.ParseUint` overflows, `natural.Less` falls back
+    to the byte order for that pair, and the comparator is not transitive any more:
+    `x20000000000000000000 < x3 < x10 < x20000000000000000000` -/
+theorem natLt_cycle_with_twenty_digits :
+    let big : Text := 120 :: 50 :: List.replicate 19 48
+    natLt big [120, 51] = true ∧ natLt [120, 51] [120, 49, 48] = true ∧ natLt [120, 49, 48] big = true ∧
+      canonB big = false := by decide
+
 -- the key of "a10b" : byte a, number 10, byte b
 example : (toksF 4 [97, 49, 48, 98]).map tokOf = [.byte 97, .num 10, .byte 98] := by decide
 
